@@ -70,7 +70,20 @@ def run_family(ctx, name, scs, sigf=violation_sig, chunk=400, props=()):
 import json
 
 
+def model_scenarios():
+    out = [scenario([to(2)], [[fn(d, "R1", None, coop)]], [start(1)], tld=tld) for d in (1, 2, 3) for coop in (True, False) for tld in (0, 1)]
+    for d1 in (1, 2, 3):
+        for d2 in (1, 3):
+            fns = [[fn(d1, "R0", "E1", True), fn(d2, "R1", None, False), fn(1, "R1")]]
+            out += [scenario([retry(1), to(2)], fns, [start(1)]), scenario([to(3), retry(1, dly=1)], fns, [start(1)]), scenario([fb(), to(2)], fns, [start(1)])]
+    return out
+
+
 def run(ctx):
+    import tmc
+    tscen.ASYNC_FIX = tscen.async_fix_in_code()
+    # TLC on the model alone: every schedule of the small scenarios, C07 invariants in every quiescent state
+    tmc.model_check(ctx, "to", model_scenarios(), ["MC_NoStuckThread", "MC_AllReturn", "MC_C07"])
     scs = scenarios(ctx.tier == "quick")
     run_family(ctx, "to", scs)
     return vlib.finish(ctx, rule="grid of timed scenarios: 8 placements of a Timeout (alone, under/over retry, with fallback, nested timeouts) + hedge and bulkhead placements x function durations "
